@@ -249,11 +249,10 @@ func c08(c *Ctx) {
 		eachInstr(lh, func(in ssa.Instruction) {
 			if mu, ok := in.(*ssa.MapUpdate); ok {
 				if b := asBinOp(mu.Value, token.ADD); b != nil {
-					for _, cd := range condsFor(mu.Block()) {
-						cd = normCond(cd)
-						if cmp := asBinOp(cd.V, token.LEQ); cmp != nil && cd.Sense && strings.Contains(pathOf(cmp.X), "timer.Values") && strings.Contains(pathOf(stripConv(cmp.Y)), "next(range(") {
-							okLE = true
-						}
+					isVal := func(v ssa.Value) bool { return strings.Contains(pathOf(v), "timer.Values") }
+					isBound := func(v ssa.Value) bool { return strings.Contains(pathOf(stripConv(v)), "next(range(") }
+					if cmpHolds(factsAt(mu.Block()), isVal, isBound, token.LEQ) {
+						okLE = true
 					}
 				}
 			}
@@ -365,8 +364,8 @@ func c08(c *Ctx) {
 		// unparsable skipped
 		okSkip := false
 		for _, cl := range callsTo(mp, "builtin append") {
-			cs := strings.Join(condStrings(cl.Block()), " && ")
-			if strings.Contains(cs, "ParseFloat") && strings.Contains(cs, "==nil)=true") {
+			isErr := func(v ssa.Value) bool { return strings.Contains(pathOf(v), "ParseFloat") && strings.HasSuffix(pathOf(v), "#1") }
+			if cmpHolds(factsAt(cl.Block()), isErr, isNilConst, token.EQL) {
 				okSkip = true
 			}
 		}
